@@ -52,7 +52,7 @@ def main(a):
         print("replay %s: expected %s, got %s" % (a.replay, want, r["sig"]))
         for d in r["detail"]:
             print("  " + d)
-        if r["sig"] == want:
+        if orch.same_violation(r["sig"], want):
             print("VIOLATION property=%s replay=%s" % (PROP, a.replay))
             return 1
         return 0
